@@ -431,6 +431,13 @@ func (loc *Location) WorkWalk(ctx *Context, w *FindRules, steps int) *Condition 
 				wg.Add(len(erc.Children))
 				for _, era := range erc.Children {
 					go func(era *ExecRuleAction) {
+						// A Context carries per-call state (see
+						// 'privilege') that concurrent actions
+						// must not share.
+						ctx := ctx
+						if ctx != nil {
+							ctx = ctx.SubContext()
+						}
 						if era.Disposition != Complete || c.step() {
 							era.Do(ctx, loc)
 							if era.Disposition == Complete {
